@@ -84,15 +84,17 @@ Proof. exact commit_not_found_noop. Qed.
 Check C07_duplicate_commit_rejected : forall served st id, ~ In id (pending st) -> step served st (Commit id) = st.
 Print Assumptions C07_duplicate_commit_rejected.
 
-(* and a pending migration for which a commit request reaches the broker at some point of a tail is committed exactly once *)
+(* and a pending migration for which a commit request reaches the broker at some point of a tail is committed exactly once, unless a
+   broker operation abandons or re-keys it in that tail (BrokerCancel: a failover re-issues the migration epoch; the compiled
+   coordinator rounds never emit it: mig_round_nc) *)
 Theorem C07_commit_exactly_once : forall served pre tail id,
   let st := run served pre init in
-  In id (pending st) -> In (Commit id) tail ->
+  In id (pending st) -> In (Commit id) tail -> no_cancel_of id tail = true ->
   count_occ N.eq_dec (commits (run served tail st)) id = 1%nat /\ ~ In id (pending (run served tail st)).
 Proof. exact commit_exactly_once. Qed.
 Check C07_commit_exactly_once : forall served pre tail id,
   let st := run served pre init in
-  In id (pending st) -> In (Commit id) tail ->
+  In id (pending st) -> In (Commit id) tail -> no_cancel_of id tail = true ->
   count_occ N.eq_dec (commits (run served tail st)) id = 1%nat /\ ~ In id (pending (run served tail st)).
 Print Assumptions C07_commit_exactly_once.
 
